@@ -854,6 +854,12 @@ func (r *multiCIDRRangeAllocator) prioritizedCIDRs(logger klog.Logger, node *cor
 			cidr, err := r.allocateCIDR(clusterCIDR, clusterCIDR.IPv6CIDRSet)
 			if err != nil {
 				logger.V(3).Info("Unable to allocate IPv6 CIDR, trying next range", "err", err)
+				// Give back the IPv4 CIDR reserved above, it is not going to be used.
+				for _, reserved := range cidrs {
+					if relErr := r.Release(logger, clusterCIDR, reserved); relErr != nil {
+						logger.Error(relErr, "Unable to release IPv4 CIDR", "cidr", reserved)
+					}
+				}
 				continue
 			}
 			cidrs = append(cidrs, cidr)
